@@ -10,6 +10,7 @@ CLAIMED = {
  "C03": ("Theorems C03_execs, C03_bounded, C03_final, C03_dry (attempt bookkeeping invariant, bounded retries, final accounting, dry-run starts nothing) over all interleavings; executions counted by the scripted executor and compared.", SCHED_NOTE + " argv stability across retries and 'no history in dry-run' are checked by real-process / agent streams, not by a theorem (partial).", "5/C03"),
  "C04": ("Theorems C04_outcome, C04_canceled, C04_handlers, C04_plan_shape, C04_after_steps; status cascade and handler switch tied to scheduler.go by extracted tables.", SCHED_NOTE, "5/C04"),
  "C05": ("Theorems C05_no_new_start, C05_delivery, C05_kill, C05_repeat_*, C05_nothing_left_running, C05_finished_means_executed on the model of the FIXED code (three fix: commits); harness injects stop and escalation at PRNG points incl. the launch-decision window.", SCHED_NOTE + " Partial: the wall-clock bound (MaxCleanUpTime), process-group delivery and pipes held by grandchildren are runtime behaviour the model cannot exhibit.", "5/C05"),
+ "C10": ("Theorems C10_reset (a step is reset iff recorded failed/canceled/running or downstream of one; the walk's fuel is proved sufficient for every acyclic graph), C10_start (the vector the retry run starts from), C10_no_orphan, C10_kept (in EVERY interleaving of the retry run a kept step is never executed and keeps its record); setupRetry tied by extracted facts + skeleton; reset vector and every quiescent snapshot of real retries (NewExecutionGraphForRetry + Schedule) = model; Go-side monitor of the property on the events (termination, kept steps untouched, unfinished steps re-executed, dependency order).", SCHED_NOTE + " Partial: termination and dependency order of the retry run from an arbitrary recorded vector rest on the correspondence + monitor (the fine-system theorems C01/C02 are proved from the fresh initial state); parameter re-use is C11's clause; the JSON round trip of the node table is covered by C08.", "5/C10"),
  "C14": ("Theorem C14: acceptance by ExecutionGraph.setup <-> all names resolve and the dependency relation is acyclic (Kahn's algorithm as written, FIFO queue, multiplicities; fuel proved sufficient). Exhaustive differential run on all digraphs <=4 nodes against the real NewExecutionGraph and an independent DFS.", "Trusted: Lean kernel, Relation.TransGen as the notion of cycle, extractor, harness. Hypothesis: distinct step names (as in the property).", "5/C14"),
  "C17": ("Theorems C17_sound, C17_401, C17_complete_basic, C17_complete_token, C17_noauth, C17_base64 over EVERY header byte string, path and configuration (model of the middleware chain: prefix check -> basic with bearer skip -> token with authenticated skip; base64 decode/encode re-implemented and decode(encode)=id proved); every middleware function tied by extracted skeleton + wrap order; impl = model on ~5k generated requests per run through the real middleware.Setup/SetupGlobalMiddleware; Go-side property monitor with an independent reading of 'presents a secret'.", "Trusted: Lean kernel; axioms propext/Classical.choice/Quot.sound only; extractor + canonical tables; harness. Modelled, not verified: net/http's own header handling upstream of the chain, Go's encoding/base64 (re-implemented in Lean, validated differentially), crypto/subtle.ConstantTimeCompare (= byte equality). Completeness for user names without ':' and non-empty tokens without ' '.", "5/C17"),
  "C15": ("Theorems C15_running, C15, C15_workers: invariant over all reachable states of all interleavings; comparator tied by extraction (scheduleIfConds).", SCHED_NOTE, "5/C15"),
